@@ -14,6 +14,9 @@ compiled to the sequence of synchronisation-relevant instructions the code execu
 * batch `Commit`: `closed.Load()`; batch `Lock`; view `Lock`; per write {map `Lock`; write; map `Unlock`};
   batch `Unlock`; view `Unlock` (the two `defer`s run in this order)
 * `Close`: `closed.Swap(true)`
+* `WithRealm/WithExtendedRealm/Batched/Flush`: `closed.Load()` only (ghost access `nop`); a new view / batch object has
+  its own zero-valued lock: every `LockId` starts `RW.free` and stays free while nobody uses it
+* batch `Set/Delete/Cancel`: batch `Lock`; private maps; batch `Unlock` (no flag load)
 
 Every access to the shared map is ONE atomic effect (`DOp.apply`) of the C04 specification's
 ordered map.  `sync.RWMutex` has writer preference: `Lock` first announces itself (`pending`), then
@@ -37,6 +40,9 @@ inductive DOp
   | delp (fp : Bytes)
   | iter (fp : Bytes) (strip : Nat) (d : Dir) (stop : Nat)
   | iterk (fp : Bytes) (strip : Nat) (d : Dir) (stop : Nat)
+  /-- no access at all: the linearisation point of a call that only loads the closed flag and found it clear
+  (`WithRealm`, `WithExtendedRealm`, `Batched`, `Flush`) -/
+  | nop
 deriving DecidableEq, Repr
 
 def DOp.isWrite : DOp → Bool
@@ -52,6 +58,12 @@ def DOp.apply : DOp → AList → AList × Out
   | .delp fp, m => (Spec.erasePfx fp m, .ok)
   | .iter fp strip d stop, m => (m, .kvs (Spec.iterate fp strip d stop m))
   | .iterk fp strip d stop, m => (m, .keys ((Spec.iterate fp strip d stop m).map (·.1)))
+  | .nop, m => (m, .ok)
+
+/-- Does the access touch the shared map (and therefore need the map lock)? -/
+def DOp.touchesMap : DOp → Bool
+  | .nop => false
+  | _ => true
 
 /-! ## locks -/
 
@@ -100,6 +112,10 @@ inductive COp
   | iterk (r p : Bytes) (d : Dir) (stop : Nat)
   | commit (b v : Nat) (r : Bytes) (ws : List Write)   -- the batch's sets, then its deletes
   | close
+  | withRealm (r : Bytes)     -- `WithRealm` / `WithExtendedRealm`: flag load; the result is a NEW view object (own, free lock)
+  | batched                   -- `Batched`: flag load; the result is a new batch object (own, free mutex)
+  | flush                     -- `Flush`: flag load
+  | batchOp (b : Nat)         -- batch `Set` / `Delete` / `Cancel`: the batch's own maps under the batch mutex, nothing shared
 deriving DecidableEq, Repr
 
 def writeOp (r : Bytes) (w : Write) : DOp :=
@@ -114,6 +130,13 @@ def writeCode (v : Nat) (a : DOp) : List Instr :=
   [.check, .lock (.view v), .lock .map, .eff a, .unlock .map, .unlock (.view v)]
 
 def iterCode (a : DOp) : List Instr := [.check, .rlock .map, .eff a, .runlock .map]
+
+/-- A call that only loads the closed flag (`WithRealm`, `WithExtendedRealm`, `Batched`, `Flush`): its linearisation point
+on success is the ghost access `nop`, which touches nothing and needs no lock. -/
+def flagCode : List Instr := [.check, .eff .nop]
+
+/-- Batch `Set` / `Delete` / `Cancel`: no flag load, the batch mutex around an update of the batch's private maps. -/
+def batchCode (b : Nat) : List Instr := [.lock (.batch b), .unlock (.batch b)]
 
 def commitWrites (r : Bytes) : List Write → List Instr
   | [] => []
@@ -131,6 +154,10 @@ def compile : COp → List Instr
   | .commit b v r ws =>
     .check :: .lock (.batch b) :: .lock (.view v) :: (commitWrites r ws ++ [.unlock (.batch b), .unlock (.view v)])
   | .close => [.swapClosed]
+  | .withRealm _ => flagCode
+  | .batched => flagCode
+  | .flush => flagCode
+  | .batchOp b => batchCode b
 
 /-! ## ghost events -/
 
